@@ -100,6 +100,31 @@ impl Gf {
         g
     }
 
+    /// e * x^d mod g(x) (g monic, highest degree first, degree k): k coefficients, highest degree first.
+    pub fn monomial_mod(&self, e: u8, d: usize, g: &[u8]) -> Vec<u8> {
+        let k = g.len() - 1;
+        // remainder register, highest degree first, start with the constant e
+        let mut r = vec![0u8; k];
+        if k == 0 {
+            return r;
+        }
+        r[k - 1] = e;
+        for _ in 0..d {
+            // multiply by x and reduce
+            let top = r[0];
+            for i in 0..k - 1 {
+                r[i] = r[i + 1];
+            }
+            r[k - 1] = 0;
+            if top != 0 {
+                for i in 0..k {
+                    r[i] ^= self.mul(top, g[i + 1]);
+                }
+            }
+        }
+        r
+    }
+
     /// Polynomial product, highest degree first.
     pub fn poly_mul(&self, a: &[u8], b: &[u8]) -> Vec<u8> {
         if a.is_empty() || b.is_empty() {
